@@ -33,3 +33,50 @@ Definition show_pairings (l : list (Z * list pairing)) : string :=
   sjoin "|" (map (fun kv => show_Z (fst kv) ++ "=" ++ sjoin ";" (map show_pairing (snd kv))) l).
 Definition show_interleaved (l : list (Z * pairing)) : string :=
   sjoin ";" (map (fun kv => show_Z (fst kv) ++ "=" ++ show_pairing (snd kv)) l).
+
+(* ---- tokeniser *)
+From Model Require Import Tok.
+Open Scope string_scope.
+Definition show_toks (l : list tok) : string := sjoin " " (map render_tok l).
+Definition show_tstate (s : tstate) : string :=
+  show_Zs [t_time s; t_tbar s; t_num s; t_den s; t_rem s; t_ptrk s; t_pval s; t_pvel s].
+Definition show_tokres (r : result (list tok * tstate)) : string :=
+  show_res (fun x => show_toks (fst x) ++ "#" ++ show_tstate (snd x)) r.
+Definition show_ann (a : option (Z * option Z)) : string :=
+  match a with None => "n" | Some (p, c) => show_Z p ++ "/" ++ show_opt show_Z c end.
+Definition show_info (i : info) : string :=
+  show_Zs (f_pos i) ++ "#" ++ show_Zs (f_time i) ++ "#" ++ show_Zs (f_tbar i) ++ "#" ++ sjoin "," (map show_ann (f_pitch i)).
+(* id -> token for every id below dictionary_size; "?" where the id was overwritten by a later duplicate *)
+Definition show_vocab (c : cfg) : string :=
+  show_Z (dictionary_size c) ++ "#" ++
+  sjoin " " (map (fun i => match decode1 c i with Ok t => render_tok t | Err _ => "?" end) (rangeZ 0 (dictionary_size c))).
+(* tokenise, encode, decode, detokenise *)
+Definition roundtrip (c : cfg) (tracks : list (list msg)) : string :=
+  match tokenise c (tstate0 c) tracks with
+  | Err e => "!" ++ show_err e
+  | Ok (ts, st) =>
+      show_toks ts ++ "#" ++ show_tstate st ++ "#" ++
+      match encode c ts with
+      | Err e => "!" ++ show_err e
+      | Ok ids => show_Zs ids ++ "#" ++
+          match decode c ids with
+          | Err e => "!" ++ show_err e
+          | Ok ts' => show_res show_msgss (detokenise c ts')
+          end
+      end
+  end.
+(* threaded calls: one token list per call and the state after each *)
+Fixpoint tokenise_calls (c : cfg) (st : tstate) (calls : list (list (list msg))) : string :=
+  match calls with
+  | [] => ""
+  | tr :: rest =>
+      match tokenise c st tr with
+      | Err e => "!" ++ show_err e
+      | Ok (ts, st') => show_toks ts ++ "#" ++ show_tstate st' ++ "$" ++ tokenise_calls c st' rest
+      end
+  end.
+Definition detok_strings (c : cfg) (ss : list string) : string :=
+  match parse_all ss with
+  | Err e => "!" ++ show_err e
+  | Ok ts => show_res show_msgss (detokenise c ts) ++ "#" ++ show_info (get_info c false ts) ++ "#" ++ show_info (get_info c true ts)
+  end.
